@@ -85,6 +85,9 @@ def generate(seed, tier):
             s["kind"] = "snapshot"
     else:
         s["threads"] = r.randrange(2, 7)
+        # a collecting thread may stall while it holds the action (slow condition, loaded host): 0.2 - 3 s
+        s["knobs"]["stall_p"] = r.choice((0.0, 0.0, 0.002, 0.01))
+        s["knobs"]["stall_ns"] = [200_000_000, 3_000_000_000]
         s["hits"] = r.choice((1, 1, 2))
         s["mode"] = r.choice(("D", "D", "L"))
         s["target"] = r.random() < 0.4
